@@ -60,9 +60,16 @@ def main(argv: list[str]) -> int:
         return 2
     prop = argv[0]
     seed = int(os.environ.get("VERIF_SEED", "0") or 0)
+    replay_group = None
     if argv[1] == "--replay":
-        mod = importlib.import_module(f".props.{REGISTRY[prop]}", "harness")
-        return mod.replay(prop, argv[2])
+        # a replay file names a group (site | stratum) of one check; the check is run again (same tier and seed as recorded)
+        # and only that group is judged: exit 1 + VIOLATION when it still fires, exit 0 when it no longer reproduces.
+        # The evidence file of the property is left alone.
+        rec = json.load(open(argv[2]))
+        replay_group = rec["group"]
+        first = (rec.get("cases") or [{}])[0]
+        argv = [prop, first.get("tier", "quick")]
+        seed = int(first.get("seed", seed))
     tier = os.environ.get("VERIF_TIER") or argv[1]
     if argv[1] in ("quick", "thorough"):
         tier = argv[1]
@@ -70,6 +77,7 @@ def main(argv: list[str]) -> int:
         print(f"unknown property {prop}")
         return 2
     ctx = Ctx(prop, tier, seed)
+    ctx.replay_group = replay_group
     try:
         mod = importlib.import_module(f".props.{REGISTRY[prop]}", "harness")
         mod.run(ctx)
